@@ -548,6 +548,10 @@ def replay_known(ctx, k):
             ws_ = [str(n).rstrip() for n in nodes_of(stmt, sql.Where)]
             if wt['required'] not in ws_:
                 return True
+        if wt['kind'] == 'wrapper':
+            # KF-C13-6: the written item `name [AS] alias` is not one Identifier of the tree
+            if not any(str(n) == wt['ref'] for n in nodes_of(stmt, sql.Identifier)):
+                return True
     return False
 
 
